@@ -70,7 +70,7 @@ func HandleStateRequestStream(blockchain blockchain.Blockchain, stream *quic.Str
 	}
 
 	// The payload should be HeaderHash (32) + KeyStart (31) + KeyEnd (31) + MaxSize (4) = CE129RequestSize bytes
-	if len(reqPayload) < CE129RequestSize {
+	if len(reqPayload) != CE129RequestSize {
 		return errors.New("invalid state request length")
 	}
 
